@@ -570,6 +570,24 @@ def run_shard(shard, only=None):
                 res['cov']['content_types'] = res['cov'].get('content_types', 0) + 1
                 res['nontrivial'] += 1
                 res['outcomes'][oc] = res['outcomes'].get(oc, 0) + 1
+        # integer literals at and beyond the interpreter's digit limit for int <-> str conversion (4300), huge exponents,
+        # in the text formats
+        if fam == 'dict' and cfg.get('wire') in ('json', 'yaml'):
+            valid = h.codec.request_bytes(h.b.methods['m'], [5, 7])
+            needle = b'"a": 5' if cfg['wire'] == 'json' else b'a: 5'
+            if needle in valid:
+                for transport in ('server', 'wsgi'):
+                    rn = Runner(fam, h, transport)
+                    for lit in ('9' * 4300, '9' * 4301, '-' + '9' * 5000, '1' + '0' * 20000, '1e99999', '0.' + '0' * 5000 + '1', '9' * 400):
+                        body = valid.replace(needle, needle[:-1] + lit.encode())
+                        key = [transport, 'huge-number', '%s..(%d)' % (lit[:6], len(lit))]
+                        if only is not None and only != key:
+                            continue
+                        r = rn.run(body)
+                        oc = verdict(r, rn, body[:200], res, {'shard': shard, 'only': key}, 'huge-number')
+                        res['evaluations'] += 1
+                        res['nontrivial'] += 1
+                        res['outcomes'][oc] = res['outcomes'].get(oc, 0) + 1
         # SOAP with attachments: a multipart/related body (root envelope + one attachment) - every truncation, every part
         # header line deleted / emptied, parts dropped or doubled
         if fam == 'xml' and cfg['proto'] in ('soap11', 'soap12'):
